@@ -46,7 +46,7 @@ CLAIMED["C09"] = dict(
   ref="4-C09")
 CLAIMED["C18"] = dict(
   text="Bounded symbolic verification (SMT over go/ssa) of the conditional-request kernel: etagMatch is SOUND for every header value up to the bound (a match is reported only if the current tag occurs literally in the header, or '*' and the object exists; a non-existent object never matches), behaves per RFC 7232 on well-formed lists/weak tags/'*', and checkPreconditions implements the status table (412 / 304 / proceed) for every method and header pair. This is the decision on which 'a write with If-Match succeeds only if unchanged' rests.",
-  note="Bounds: headers 0..6 (thorough 9) bytes over all byte values, tags with 1-2 body bytes; precondition table with header values 0..3 (5) bytes. NOT decided here (stated plainly): the re-check of the tag under groups.mu in group.UpdateDescription/UpdateUser/..., the racing-writers clause and the temp-file+rename crash atomicity - they need a file-system model and threads that this engine does not have (DESIGN 4-C18 c,d). Trusted: go/ssa, gosmt, z3/cvc5, http.Header.Get modelled as a map lookup.",
+  note="Bounds: headers 0..6 (thorough 9) bytes over all byte values, tags with 1-2 body bytes; precondition table with header values 0..3 (5) bytes; plus, over a ghost single-file store behind readDescription/rewriteDescriptionFile whose versions differ by ONE nanosecond of mtime: of two writers holding the same tag the first succeeds and any of 6 operations by the second is refused without writing (real UpdateDescription/UpdateUser/DeleteUser incl. makeETag), the empty tag creates but never overwrites. NOT decided: truly concurrent writers (their exclusion rests on groups.mu; sequential composition is what is checked) and the crash atomicity of temp-file+fsync+rename - no file-system fault model and no threads in this engine (DESIGN 4-C18 d). Trusted: go/ssa, gosmt, z3/cvc5, http.Header.Get modelled as a map lookup.",
   technique="bounded symbolic execution of go/ssa with SMT (soundness and completeness obligations over all header byte strings up to the bound)",
   ref="4-C18")
 CLAIMED["C19"] = dict(
@@ -93,6 +93,12 @@ CLAIMED["C20"] = dict(
   note="Bounds: all seqnos, gaps 1..4 (thorough 8), payloads 1..3 bytes; all origins, offsets < 2^30. NOT decided (the bulk of the property): frame assembly, duplicates and ordering inside jech/samplebuilder, setOrigin/setTimeOffset/adjustOrigin (rtptime uses 128-bit multiply/divide by 10^9 that no solver here decides), container well-formedness (ebml-go), flush on close, file handling. writeRTP / PopWithTimestamp / diskConn.close are models. Trusted: go/ssa, gosmt, z3/cvc5.",
   technique="bounded symbolic execution of go/ssa with SMT (z3/cvc5) of the recovery and timestamp kernels only",
   ref="4-C20")
+
+CLAIMED["C17"] = dict(
+  text="Symbolic execution (SMT over go/ssa) of the REAL webserver.apiHandler and every handler below it (apiGroupHandler, usersHandler, specialUserHandler, userHandler, passwordHandler, keysHandler, tokensHandler, checkAdmin, checkAdminOrExplicitPassword, apiCORS, splitPath, checkPreconditions, httpError...) over an exhaustively enumerated request vocabulary (7 methods x 29 endpoint shapes x 3 credential outcomes x 3 token states), with every accessor and mutator of group/user/key/token/statistics data as an EFFECT STUB: nothing is read or modified unless an authorisation for the SAME group string succeeded (administrator; or the user's own password, for setting that password only); refusals are 401/404 without effect; OPTIONS has no effect; no panic. Separately: the real isAdminOrExplicitPassword with real GetPermission/Password.Match against symbolic passwords (true iff administrator, or the named user's own password; empty-username and wildcard entries are ordinary users); and, over a ghost single-file store, that the sanitised views contain no users/keys/password material and that UpdateDescription/UpdateUser/SetUserPassword never remove or alter stored secrets they do not address and refuse unsanitised input.",
+  note="The request vocabulary is finite and covered exhaustively; the solver decides path/string comparisons. NOT encoded: JSON encoding of the response ('no response contains a secret' is shown at the level of the value handed to the encoder), CORS origin logic, globalAdminMatch / checkGlobalAdminToken (global administrator; its crypto is C08/C09's), body decoding. 25 function-level models, natively intercepted by source-overlay hooks. Trusted: go/ssa, gosmt (incl. its models of http.Error/Header), z3/cvc5.",
+  technique="symbolic execution of go/ssa with SMT over an exhaustively enumerated finite request vocabulary, effect stubs with precondition assertions; ghost single-file store for the sanitise/carry-over obligations",
+  ref="4-C17")
 
 NOT_APPLICABLE = {
 }
